@@ -27,7 +27,14 @@ def mk_poly(M, bnds, var_ids=None, idx_ids=None, narrow=False):
         if lo >= -2 ** 15 and hi < 2 ** 15: cands.append(np.int16)
         if lo >= -128 and hi < 128: cands.append(np.int8)
         dt = narrow if narrow is not True else cands[(sum(flat) + len(flat)) % len(cands)]
-        return pnd.ge_polyhedron(arr.astype(dt), variables=vs, index=ix, dtype=dt)
+        src = arr.astype(dt)
+        # the array the polyhedron is built FROM may be Fortran-ordered or a transposed view (chosen from the data)
+        k = (sum(abs(x) for x in flat) + len(flat)) % 3
+        if k == 1:
+            src = np.asfortranarray(src)
+        elif k == 2 and src.ndim == 2:
+            src = np.ascontiguousarray(src.T).T
+        return pnd.ge_polyhedron(src, variables=vs, index=ix, dtype=dt)
     return pnd.ge_polyhedron(arr, variables=vs, index=ix)
 
 def poly_lists(P):
